@@ -206,7 +206,9 @@ pub fn bar_cells(_args: &[String]) -> String {
         let style = ProgressStyle::with_template(&t).unwrap().progress_chars("#>-");
         for len in [1u64, 2, 3, 7, 10, 100, 1000, 1_000_000, 16_777_216] {
             let mut ps = vec![0u64, 1, len / 3, len / 2, len.saturating_sub(1), len, len + 1, 2 * len];
+            ps.sort();
             ps.dedup();
+            let mut prev_filled: Option<(u64, usize)> = None;
             for pos in ps {
                 let f = frame(&style, Some(len), pos, "", "", 0, 0, 80);
                 tried += 1;
@@ -225,6 +227,15 @@ pub fn bar_cells(_args: &[String]) -> String {
                     bad = Some("filled == floor(fraction * cells)");
                 } else if (head == 1) != (pos > 0 && filled < n) {
                     bad = Some("a partial cell exactly when the bar is neither empty nor full");
+                }
+                if bad.is_none() {
+                    if let Some((pp, pf)) = prev_filled {
+                        if filled < pf {
+                            return format!("{{\"found\": true, \"clause\": \"C13 the filled count is monotone in the position\", \"tried\": {}, \"input\": {{\"template\": {}, \"len\": {}, \"pos_a\": {}, \"filled_a\": {}, \"pos_b\": {}, \"filled_b\": {}}}, \"rerun\": \"replay bar_cells\"}}",
+                                tried, crate::js(&t), len, pp, pf, pos, filled);
+                        }
+                    }
+                    prev_filled = Some((pos, filled));
                 }
                 if let Some(b) = bad {
                     return format!("{{\"found\": true, \"clause\": {}, \"tried\": {}, \"input\": {{\"template\": {}, \"pos\": {}, \"len\": {}, \"rendered\": {}}}, \"rerun\": \"replay bar_cells\"}}",
